@@ -78,7 +78,12 @@ def _random_records(ctx, count, nmax):
         groups, d = run_groups(v, ids if with_ids else None, dtype)
         vneg = np.asarray(v, dtype=np.int64)
         vneg[rng.rand(n) < 0.2] = -1
-        mean = A.grouped_mean(np.asarray(w, dtype=np.float64), vv)
+        wdt = np.float64
+        if rid % 7 == 3 and n <= 60:
+            # single-precision data whose sums are NOT exact in single precision (the mean is a mean of the values)
+            w[0] = 2 ** 24
+            wdt = np.float32
+        mean = A.grouped_mean(np.asarray(w, dtype=wdt), vv)
         fr = [Fraction(float(x)).limit_denominator(100000) for x in mean]
         recs.append(dict(
             id=rid, kind='utils', v=v, ids=ids, groups=groups, unique=as_list(A._unique(vv)), req=req,
